@@ -84,3 +84,77 @@ pub proof fn lemma_rd8(d: Seq<u8>, p: int, pre: Seq<u8>, v: nat, all: Seq<u8>)
     lemma_rd4(d, p, pre, hi, all);
 }
 
+
+// ---- stsz (hand written like its layout): header fields sample_size / sample_count, then the per-sample sizes
+pub proof fn lemma_stsz_prefix_mono(b: StszBox, n: int, m: int)
+    requires 0 <= n <= m
+    ensures is_prefix(stsz_prefix(b, n), stsz_prefix(b, m))
+    decreases m
+{
+    if n < m {
+        lemma_stsz_prefix_mono(b, n, m - 1);
+        let a = stsz_prefix(b, n); let x = stsz_prefix(b, m - 1); let y = stsz_prefix(b, m);
+        assert forall|i: int| 0 <= i < a.len() implies a[i] == y[i] by { assert(x[i] == y[i]); }
+    }
+}
+pub proof fn lemma_stsz_roundtrip(d: Seq<u8>, p: int, b: StszBox)
+    requires 0 <= p, stsz_wire(b)
+    ensures stsz_at(wr(d, p, stsz_bytes(b)), p, b)
+{
+    broadcast use lemma_be_bytes_len;
+    let all = stsz_bytes(b); let n = b.sample_sizes@.len() as int; let s = wr(d, p, all);
+    lemma_stsz_prefix_mono(b, 0, n);
+    let h = hdr_bytes(stsz_len(b) as u64, 0x7374737a);
+    let fb = (h + seq![b.version]) + be_bytes(b.flags as nat, 3);
+    assert(stsz_prefix(b, 0) == (fb + be_bytes(b.sample_size as nat, 4)) + be_bytes(b.sample_count as nat, 4)) by {
+        assert(h + (seq![b.version] + be_bytes(b.flags as nat, 3)) + be_bytes(b.sample_size as nat, 4) + be_bytes(b.sample_count as nat, 4)
+               =~= (fb + be_bytes(b.sample_size as nat, 4)) + be_bytes(b.sample_count as nat, 4));
+    }
+    lemma_rd4(d, p, fb + be_bytes(b.sample_size as nat, 4), b.sample_count as nat, all);
+    lemma_prefix_app(fb + be_bytes(b.sample_size as nat, 4), be_bytes(b.sample_count as nat, 4), all);
+    lemma_rd4(d, p, fb, b.sample_size as nat, all);
+    lemma_prefix_app(fb, be_bytes(b.sample_size as nat, 4), all);
+    lemma_rd3(d, p, h + seq![b.version], b.flags as nat, all);
+    lemma_prefix_app(h + seq![b.version], be_bytes(b.flags as nat, 3), all);
+    assert((h + seq![b.version])[8] == b.version);
+    lemma_wr_index(d, p, all, 8);
+    assert forall|j: int| 0 <= j < n implies be32(s, p + 20 + 4 * j) == #[trigger] b.sample_sizes@[j] by {
+        lemma_stsz_prefix_mono(b, j + 1, n);
+        lemma_stsz_prefix_len(b, j);
+        let pj = stsz_prefix(b, j);
+        assert(stsz_prefix(b, j + 1) == pj + be_bytes(b.sample_sizes@[j] as nat, 4));
+        lemma_rd4(d, p, pj, b.sample_sizes@[j] as nat, all);
+    }
+}
+
+// ---- ftyp (hand written): major brand, minor version, compatible brands to the end of the box
+pub proof fn lemma_ftyp_prefix_mono(b: FtypBox, n: int, m: int)
+    requires 0 <= n <= m
+    ensures is_prefix(ftyp_prefix(b, n), ftyp_prefix(b, m))
+    decreases m
+{
+    if n < m {
+        lemma_ftyp_prefix_mono(b, n, m - 1);
+        let a = ftyp_prefix(b, n); let x = ftyp_prefix(b, m - 1); let y = ftyp_prefix(b, m);
+        assert forall|i: int| 0 <= i < a.len() implies a[i] == y[i] by { assert(x[i] == y[i]); }
+    }
+}
+pub proof fn lemma_ftyp_roundtrip(d: Seq<u8>, p: int, b: FtypBox)
+    requires 0 <= p, ftyp_wire(b)
+    ensures ftyp_at(wr(d, p, ftyp_bytes(b)), p, ftyp_len(b), b)
+{
+    broadcast use lemma_be_bytes_len;
+    let all = ftyp_bytes(b); let n = b.compatible_brands@.len() as int; let s = wr(d, p, all);
+    lemma_ftyp_prefix_mono(b, 0, n);
+    let h = hdr_bytes(ftyp_len(b) as u64, 0x66747970);
+    lemma_rd4(d, p, h + be_bytes(u32_of_fourcc(b.major_brand) as nat, 4), b.minor_version as nat, all);
+    lemma_prefix_app(h + be_bytes(u32_of_fourcc(b.major_brand) as nat, 4), be_bytes(b.minor_version as nat, 4), all);
+    lemma_rd4(d, p, h, u32_of_fourcc(b.major_brand) as nat, all);
+    assert forall|j: int| 0 <= j < n implies be32(s, p + 16 + 4 * j) == u32_of_fourcc(#[trigger] b.compatible_brands@[j]) by {
+        lemma_ftyp_prefix_mono(b, j + 1, n);
+        lemma_ftyp_prefix_len(b, j);
+        let pj = ftyp_prefix(b, j);
+        assert(ftyp_prefix(b, j + 1) == pj + be_bytes(u32_of_fourcc(b.compatible_brands@[j]) as nat, 4));
+        lemma_rd4(d, p, pj, u32_of_fourcc(b.compatible_brands@[j]) as nat, all);
+    }
+}
